@@ -206,7 +206,7 @@ def _case_value(prog, ent, case_name, case):
     opaque = list(ent.get("opaque", ()))
     if ent.get("opaque_prefix"):
         opaque += [q for q in A.Evaluator(prog).by_path if q.startswith(ent["opaque_prefix"])]
-    ev = A.Evaluator(prog, presets=presets, type_alias=ent.get("alias", {}), watch=(ent.get("watch", "-"),), opaque=opaque, name_case=name_case, transparent=ent.get("transparent", ("fstr",)), iflet=(case.get("iflet") if isinstance(case, dict) else None) or ent.get("iflet"), absent=(case.get("absent", ()) if isinstance(case, dict) else ()), present=(case.get("present") if isinstance(case, dict) else None), script=_script(ent.get("script")), keep_early_none=bool(ent.get("keep_early_none")), attr_values=(case.get("values") if isinstance(case, dict) else None))
+    ev = A.Evaluator(prog, presets=presets, type_alias=ent.get("alias", {}), watch=(ent.get("watch", "-"),), opaque=opaque, name_case=name_case, transparent=ent.get("transparent", ("fstr",)), iflet=(case.get("iflet") if isinstance(case, dict) else None) or ent.get("iflet"), absent=(case.get("absent", ()) if isinstance(case, dict) else ()), present=(case.get("present") if isinstance(case, dict) else None), script=_script((case.get("script") if isinstance(case, dict) else None) or ent.get("script")), keep_early_none=bool(ent.get("keep_early_none")), attr_values=(case.get("values") if isinstance(case, dict) else None))
     h = ev.by_path.get(ent["function"])
     argv = None
     if isinstance(case, dict) and case.get("args"):
@@ -235,6 +235,8 @@ def _case_value(prog, ent, case_name, case):
                 fields[k] = ("some", A.ref(v[5:]))
             elif isinstance(v, str) and v.startswith("str:"):
                 fields[k] = ("str", v[4:])
+            elif isinstance(v, str) and v.startswith("variants:"):
+                fields[k] = ("tup", [("variant", x) for x in v[9:].split(",") if x])
             else:
                 fields[k] = A.ref(v)
         self_value = ("struct", fields)
@@ -256,6 +258,9 @@ def _case_value(prog, ent, case_name, case):
             if len(c["args"]) >= 2 and c["args"][0] is not None and not A.is_form(c["args"][0]) and c["args"][0][0] == "str":
                 out[c["args"][0][1]] = c["args"][1]
         return ("struct", out)
+    if ent.get("collect") == "list":
+        # the first argument of every watched call, in call order
+        return ("tup", [c["args"][0] if c["args"] else None for c in calls])
     if ent.get("collect") == "pairs":
         # one call whose argument `args[0]` is a list of (key, value) pairs
         out = {}
